@@ -894,12 +894,33 @@ class ModelReader:
         self.instructions.execute_selected_methods(["add_bases"])
         self.read_pickledata()
         self.instructions.execute_selected_methods(["load_pickledata"])
-        self.instructions.execute_selected_methods(
-            ["__setattr__", "set_ref"])
+        self._set_refs_from_subs()
         self.instructions.execute_selected_methods(
             ["_set_dynamic_inputs"])
 
         return model
+
+    def _set_refs_from_subs(self):
+        """Set references, those of the most derived spaces first
+
+        A reference overridden in a sub space must be in place before the
+        base's reference is derived, as the base's one may not be
+        derivable there (a relative reference out of the sub space).
+        """
+        methods = ["__setattr__", "set_ref"]
+
+        def depth(inst):
+            obj = getattr(inst.func, "__self__", None)
+            return len(obj.bases) if isinstance(obj, mx.core.space.UserSpace) else 0
+
+        depths = set()
+        self.instructions.execute_selected(
+            lambda inst: inst.func.__name__ in methods
+                         and depths.add(depth(inst)))    # Nothing executed
+        for d in sorted(depths, reverse=True):
+            self.instructions.execute_selected(
+                lambda inst: inst.func.__name__ in methods
+                             and depth(inst) == d)
 
     def parse_dir(self, path_: pathlib.Path = None, target=None, spaces=None):
 
